@@ -376,7 +376,8 @@ def run(spec, hang_ok=False):
                             time.sleep(0.0005)
                         log.add('window.let_start', reached=False)
                 windows.append({'file': wspec['file'], 'line': line + wspec.get('line_offset', 0), 'nth': wspec.get('nth', 0),
-                                'action': action, 'name': wspec.get('name') or str(wspec.get('text', ''))[:40], 'wait': wspec.get('wait', 0.3)})
+                                'action': action, 'name': wspec.get('name') or str(wspec.get('text', ''))[:40], 'wait': wspec.get('wait', 0.3),
+                                'rmw': bool(wspec.get('rmw'))})
         obs.injector = yieldinj.Injector(p=ycfg.get('p', 0.0), seed=spec.get('seed', 0), windows=windows,
                                          files=ycfg.get('files')).install()
         if ycfg.get('switch'):
